@@ -69,6 +69,9 @@ pub struct MTrack {
     pub pps: Vec<u8>,
 }
 
+/// data-type sentinel: the item is written as a bare box holding the payload (no `data` child)
+pub const RAW_ITEM: u32 = 0xFFFF_FF00;
+
 #[derive(Debug, Clone, Default)]
 pub struct Tags {
     /// (item type, data type, payload) in file order; unknown item types allowed
@@ -288,7 +291,16 @@ pub fn build_tags(tags: &Tags) -> BoxT {
     let hdlr = enc_hdlr(&HdlrF { handler: tags.handler, name: Vec::new(), ..Default::default() });
     let mut ilst = BoxT::new(b"ilst");
     for (typ, dt, payload) in &tags.items {
-        ilst.push(enc_item(typ, *dt, payload));
+        if *dt == RAW_ITEM {
+            // an unrelated item with arbitrary content: the payload is the item's raw body
+            // (no `data` child; an empty payload gives a header-only 8-byte item)
+            ilst.push(free_box(typ, 0, 0));
+            if let Some(Part::Data(pb)) = ilst.parts.last_mut().and_then(|p| if let Part::Child(c) = p { c.parts.first_mut() } else { None }) {
+                pb.b = payload.clone();
+            }
+        } else {
+            ilst.push(enc_item(typ, *dt, payload));
+        }
     }
     let children = if tags.hdlr_first { vec![hdlr, ilst] } else { vec![ilst, hdlr] };
     enc_meta(tags.meta_fullbox, children)
